@@ -375,14 +375,14 @@ HostNeverContainsDelimiter == HostCleanOf(Ref(s))
 
 \* reading the string itself as one component: the encoder produces only allowed characters and
 \* upper-case escapes, is idempotent, and never double-encodes a valid escape
-EncoderSoundOf(str, kind, ep, ew) ==
-    /\ OnlyAllowed(ep, kind) /\ OnlyAllowed(ew, kind)
-    /\ EncPrecise(ep, kind) = ep
-    /\ NoDoubleEnc(ep, str)
-    /\ SameModEnc(ep, str) /\ SameModEnc(ew, str) /\ SameModEnc(str, str)
-    /\ OnlyAllowed(str, kind) => ModelEnc(str, kind) = str
+EncoderSoundOf(str, kind, ep, em) ==
+    /\ OnlyAllowed(ep, kind) /\ OnlyAllowed(em, kind)
+    /\ EncPrecise(ep, kind) = ep /\ ModelEnc(em, kind) = em
+    /\ NoDoubleEnc(ep, str) /\ NoDoubleEnc(em, str)
+    /\ SameModEnc(ep, str) /\ SameModEnc(em, str) /\ SameModEnc(str, str)
+    /\ OnlyAllowed(str, kind) => em = str
 EncoderSound == \A kind \in {"userinfo", "path", "query"} :
-                    EncoderSoundOf(s, kind, EncPrecise(s, kind), EncWholesale(s, kind))
+                    EncoderSoundOf(s, kind, EncPrecise(s, kind), ModelEnc(s, kind))
 
 \* Model |= Rules: the observation predicted by the model passes the monitor
 ModelSatisfiesRules == Verdict(ModelEvent(s)) = "ok"
